@@ -1,4 +1,4 @@
-import RV.C03.ChainLemmas
+import RV.C03.MapLemmas
 /-
   C03 — a whole N-Triples line written by `_nt_row` parses back to the same triple.
 -/
@@ -66,13 +66,13 @@ theorem scanNode_ok (n : NTerm) (rest : Str) (h : NodeWf n) :
 
 /-- the text of a literal: `"` escaped-content `"` then the suffix -/
 theorem lit_text (lex suffix : Str) :
-    ntQuoteEncode lex ++ suffix = '"' :: (applyChain Tables.ntChain lex ++ dq :: suffix) := by
+    ntQuoteEncode lex ++ suffix = '"' :: (lex.flatMap (escOf Tables.ntMap) ++ dq :: suffix) := by
   unfold ntQuoteEncode
   simp only [List.cons_append, List.append_assoc, List.nil_append]
   rfl
 
 theorem scanObj_lit (lex rest : Str) :
-    scanObj ('"' :: (applyChain Tables.ntChain lex ++ dq :: rest)) =
+    scanObj ('"' :: (lex.flatMap (escOf Tables.ntMap) ++ dq :: rest)) =
       (match rest with
        | '^' :: '^' :: '<' :: r2 =>
          match scanIriBody r2 with
@@ -82,7 +82,7 @@ theorem scanObj_lit (lex rest : Str) :
          if langOk (spanP langChar r2).1 then some (.lit lex none (some (spanP langChar r2).1), (spanP langChar r2).2)
          else none
        | _ => some (.lit lex none none, rest)) := by
-  simp only [scanObj, chain_rest_roundtrip ntChain_ok rest lex (by simp)]
+  simp only [scanObj, map_rest_roundtrip ntMap_ok (by decide) (by decide) (by decide) (by decide) rest lex]
   rfl
 
 theorem scanObj_ok (o : NTerm) (rest : Str) (h : ObjWf o) :
